@@ -62,7 +62,7 @@ def fam_ipfix(rng, tier):
 
 
 def fam_cache(rng, tier):
-    return gen.fam_isolation(rng, n(tier, 60, 500)) + gen.fam_rejected_template(rng, n(tier, 60, 400)) + gen.fam_redefine(rng, n(tier, 80, 600), lossless=True) + \
+    return gen.fam_boundaries(rng) + gen.fam_isolation(rng, n(tier, 60, 500)) + gen.fam_rejected_template(rng, n(tier, 60, 400)) + gen.fam_redefine(rng, n(tier, 80, 600), lossless=True) + \
         gen.fam_stream(rng, n(tier, 100, 800), simple_ipfix=True, lossless=True)
 
 
